@@ -136,8 +136,21 @@ def main(argv=None):
         print("VIOLATION property=%s replay=%s" % (prop, fn))
         exit_code = 1
 
+    sens = None
+    if tier == "thorough" and not replay and os.environ.get("TWLINT_NO_SELFTEST") != "1":
+        # sensitivity self-test: evidence about the checker, never about the property (exit code unchanged)
+        try:
+            from . import selftest
+            sens = selftest.run(prop, repo or F.REPO, set(by_key))
+            print("selftest %s: %d mutants, %d applicable to this tree, %d detected%s%s" % (
+                prop, sens["mutants"], sens["applicable"], sens["detected"],
+                (", MISSED %s" % sens["missed"]) if sens["missed"] else "",
+                (", skipped %d (pattern not in this tree)" % len(sens["skipped"])) if sens["skipped"] else ""))
+        except Exception as e:      # the self-test must never break the check itself
+            sens = {"error": str(e)[:200]}
+            print("selftest %s: not run (%s)" % (prop, sens["error"]))
     if not replay:
-        write_evidence(prop, tier, seed, mod, rep, configs, metas, time.time() - t0, len(new), sorted(listed))
+        write_evidence(prop, tier, seed, mod, rep, configs, metas, time.time() - t0, len(new), sorted(listed), sens)
     n_ob = len(rep.obligations)
     n_ok = sum(1 for o in rep.obligations if o.get("discharged_by"))
     print("%s tier=%s configs=%s obligations=%d discharged=%d violations=%d known=%d wall=%.1fs" % (
@@ -150,7 +163,7 @@ def _slug(k):
     return hashlib.sha256(k.encode()).hexdigest()[:12]
 
 
-def write_evidence(prop, tier, seed, mod, rep, configs, metas, wall, nviol, listed):
+def write_evidence(prop, tier, seed, mod, rep, configs, metas, wall, nviol, listed, sens=None):
     obs = rep.obligations
     distinct = set()
     for o in obs:
@@ -188,6 +201,7 @@ def write_evidence(prop, tier, seed, mod, rep, configs, metas, wall, nviol, list
             "rules": dict(sorted(rep.rules_run.items())),
             "known_findings_matched": listed,
             "exhaustive": False,
+            "sensitivity_selftest": sens if sens is not None else "not run in this tier",
         },
         "assumptions": getattr(mod, "ASSUMPTIONS", []),
         "wall_s": round(wall, 2),
